@@ -188,6 +188,8 @@ type ProtoClient struct {
 	YieldLabel string
 	// Namespace, when set, is the only namespace ForNamespace knows.
 	Namespace string
+	// OnCurrent, when set, sees every answer of Current (harness bookkeeping: which version did the caller act on?).
+	OnCurrent func(v *Version)
 }
 
 // NewProtoClient sorts versions by genesis time.
@@ -203,7 +205,12 @@ func (c *ProtoClient) Current() (protocol.Version, error) {
 		c.K.Yield(c.YieldLabel + ".Current")
 	}
 
-	return c.at(c.Now())
+	v, err := c.at(c.Now())
+	if err == nil && c.OnCurrent != nil {
+		c.OnCurrent(v.(*Version))
+	}
+
+	return v, err
 }
 
 // CurrentVersion is Current without a scheduling point (harness use).
